@@ -138,6 +138,10 @@ def r_vbamod(ctx, rep):
     # component is the module's name
     pairs = [t for t in walk_k(fc.body, "Tup") if len(t.get("es") or []) == 2 and not t["span"].get("mac") and not t["span"].get("omac")]
     named = bool(pairs) and all(any(f.get("k") == "Field" and f.get("name") == "name" for f in walk(t["es"][0])) for t in pairs)
+    # ... or `modules.insert(m.name, code)` on the map that is built
+    inserts = [c for c in walk_k(fc.body, "MethodCall") if c.get("name") == "insert" and len(c.get("args", [])) == 2 and "BTreeMap" in (peel(c["recv"]).get("ty") or "")]
+    if not pairs and inserts:
+        named = all(any(f.get("k") == "Field" and f.get("name") == "name" for f in walk(c["args"][0])) for c in inserts)
     if good and gs and named:
         rep.holds("R-VBAMOD", key, loc(fc.raw), "content = decompress_stream(&get_stream(m.stream_name)[m.text_offset..]) stored under m.name")
     else:
@@ -196,7 +200,15 @@ def r_tab_ovba(ctx, rep):
         else:
             rep.violation("R-TAB-OVBA", base + nm, loc(fn.raw), "the chunk header is not split as %s ([MS-OVBA] 2.4.1.1.5)" % what)
     # container signature s[0] != 0x01 ; chunk signature compared with 0b011
-    sig = [b for b in bins if b["op"] in ("!=", "==") and side(b, T["container_signature"]) is not None and any(x.get("k") == "Index" for x in walk(side(b, T["container_signature"])))]
+    from .kit import let_init
+
+    def is_first_byte(e):
+        # `s[0]` itself, or a local bound to it (`let signature = s[0];`)
+        if any(x.get("k") == "Index" for x in walk(e)):
+            return True
+        li = let_init(fn.body, e)
+        return li is not None and any(x.get("k") == "Index" and lit_value(x.get("idx")) == 0 for x in walk(li["init"]))
+    sig = [b for b in bins if b["op"] in ("!=", "==") and side(b, T["container_signature"]) is not None and is_first_byte(side(b, T["container_signature"]))]
     (rep.holds if sig else rep.violation)("R-TAB-OVBA", base + "container-signature", loc(sig[0]) if sig else loc(fn.raw), "first byte compared with 0x01" if sig else "the container signature byte 0x01 is not checked")
     lits = [lit_value(x) for x in walk_k(fn.body, "Lit")]
     csig = T["chunk_signature"] in lits
